@@ -8,6 +8,9 @@
    Part 2 (the lead, from the skeleton model of optimize()): what the loop records. *)
 From Coq Require Import ZArith List String Bool.
 From PV Require Import Model.Val Model.History Model.HistorySpec Proofs.HistoryProofs.
+(* the comparator evaluated by the correspondence check; required here only so that building this file
+   builds it too (no theorem depends on it) *)
+From PV Require Model.HistoryTie.
 Import ListNotations.
 Open Scope Z_scope.
 
@@ -168,29 +171,31 @@ Proof.
 Qed.
 Print Assumptions C19_result_copies.
 
-(* OptimizeResult(bads): each of the 20 fields written by set_attributes is present with the content
-   read from the optimiser and is readable by key and by attribute ... *)
+(* OptimizeResult(bads): EVERY one of the 21 declared fields is present after set_attributes, holds the
+   content read from the optimiser, and is readable by key and by attribute (same object).
+   (Holds since commit 39edf28; before it the field status was never assigned — see below.) *)
 Theorem C19_result_fields_readable :
   forall (vals : string -> value) (k : string),
-    In k result_keys -> k <> "status"%string ->
+    In k result_keys ->
     exists v', lookup k (ritems (set_attributes init_result vals)) = Some v' /\
                payload v' = payload (vals k) /\
                rstep (set_attributes init_result vals) (RGet k) = (set_attributes init_result vals, RRef v') /\
                rstep (set_attributes init_result vals) (RGetAttr k) = (set_attributes init_result vals, RRef v').
 Proof.
-  intros vals k Hin Hne. apply set_attributes_fields. apply status_only_missing; auto.
+  intros vals k Hin. apply set_attributes_fields. apply set_attributes_complete; auto.
 Qed.
 Print Assumptions C19_result_fields_readable.
 
-(* ... but the clause "each field readable by key and by attribute" is FALSE for one declared field:
-   status is in _keys and set_attributes never assigns it (known finding result-status-never-set;
-   the witness is replayed on a real result by the run-level harness). *)
-Theorem C19_status_unset_refuted :
+(* Historical refutation (kept as a regression witness, like C12_frame_refuted_elementwise): with the
+   assignments set_attributes made before the repair (all but status) the clause "each field readable by
+   key and by attribute" was false.  The key-list tie compares set_attributes_keys with the source on
+   every run, so a return of the defect breaks the correspondence and the monitor reports the real result. *)
+Theorem C19_status_unset_refuted_before_fix :
   exists k, In k result_keys /\ forall vals,
-    snd (rstep (set_attributes init_result vals) (RGet k)) = RErr "KeyError" /\
-    snd (rstep (set_attributes init_result vals) (RGetAttr k)) = RErr "AttributeError".
-Proof. exact status_unset_refuted. Qed.
-Print Assumptions C19_status_unset_refuted.
+    let r := rrun init_result (map (fun k => RSet k (vals k)) set_attributes_keys_before_39edf28) in
+    snd (rstep r (RGet k)) = RErr "KeyError" /\ snd (rstep r (RGetAttr k)) = RErr "AttributeError".
+Proof. exact status_unset_refuted_before_fix. Qed.
+Print Assumptions C19_status_unset_refuted_before_fix.
 
 (* Non-vacuity: a concrete history with growth, padding, an overwrite-free re-record, a failing call,
    a mutation of a recorded source and a record_iteration; the premises of C19_last_record_wins hold
